@@ -76,6 +76,9 @@ def run(ck, tier):
     _key(ck, p, byk)
     _order(ck, p, byk)
     _rebuild(ck, p)
+    # the chunk cache is only sound if the memoised computation looks only inside the chunk
+    from . import c12
+    c12.match_to_lint_locality(_Sub(ck, "R-C05-key", "locality:"), p, "R-C05-key")
 
 
 # ---------------------------------------------------------------------------------------------------
